@@ -121,7 +121,7 @@ PROPS = {
     },
     "C04": {
         "level_text": "Theorems (Lean 4 kernel) about the REGENERATED call-structured formula programs (tools/gotr T2 from curve.go on every run): for EVERY pair of well-formed Jacobian triples - any Z scaling, Z = 1, shared Z, equal points, opposite points, the identity in any encoding - AddNonConst with a distinct result, with the result aliasing the first operand and with the result aliasing the second operand (first operand left untouched) return a well-formed (normalised, on-curve or identity) triple representing the affine sum; DoubleNonConst in place represents 2P (identity when Y = 0, which cannot occur for curve points because -7 is not a cube mod P); ToAffine returns (X/Z^2, Y/Z^3, 1). Each of the four add routines, both doubling routines and the 37-path dispatch are proved path by path (unfold, cast to ZMod P, field_simp, ring). The affine law they are compared with is proved to be Mathlib's WeierstrassCurve.Affine.Point addition (Secp.Proofs.SpecGroup). The same programs are executed by the driver and diffed with the real routines on all relation classes x Z patterns x three alias patterns, the six internal routines through hooks, and off-curve field values.",
-        "level_note": "Trusted: Lean kernel + Mathlib's definition of the curve group; tools/gotr T2 (regenerated every run, its programs executed against the real routines). Value level: the programs compute with field values; that the limb code realises each field operation exactly under the magnitudes used is C05 + C16. Proofs name paths by index, so a reordering of statements in curve.go can break them although the property holds (reported as no-failing-input-found).",
+        "level_note": "Trusted: Lean kernel + Mathlib's definition of the curve group; tools/gotr T2 (regenerated every run, its programs executed against the real routines). Value level: the programs compute with field values; that the limb code realises each field operation exactly under the magnitudes used is C05 + C16, and the acceptance of every path of the twelve point routines by the abstract interpreter is ALSO an obligation of this property's own file (theorems *_limb_exact), since without it the value-level theorems say nothing about the uint32 code (a Negate with an understated magnitude is exact at value level and wraps at limb level). Proofs name paths by index, so a reordering of statements in curve.go can break them although the property holds (reported as no-failing-input-found).",
         "technique": "Lean 4 proof (field_simp/ring against the affine law, bridged to Mathlib's group) about regenerated formula programs + differential run of the same programs",
         "trusted_base": COMMON_TRUST + ["tools/gotr T2 (regenerated, executed)", "Mathlib WeierstrassCurve.Affine.Point"],
         "assumptions": ["operands are well-formed Jacobian triples (normalised coordinates, on the curve or an identity encoding): the routines' documented contract"],
@@ -209,7 +209,7 @@ PROPS = {
         "correspondence": False,
         "extra_steps": [("race-run", c17_race_run)],
         "extra_is_witness": True,
-        "level_text": "PARTIAL. (1) Regenerated facts (tools/gotr T6, all three packages): the inventory of shared roots (package-level variables and closure state of package-level function values - the base-point table), every store rooted in one of them, every call handing such memory to a parameter the callee may write through (write summaries closed over calls, local aliases resolved), each with its guard; Lean `decide` shows every such write is under package initialisation or sync.Once.Do. (2) A theorem by induction over ALL schedules of any number of accessor threads in an interleaving model: the initialiser runs at most once and every observation is the fully built value; with an unsynchronised nil-check instead, a 2-thread double-initialisation schedule is exhibited. (3) Supporting dynamic run: fresh processes built with -race, goroutines starting together on a mix of keygen/sign/verify/recover/parse/scalar-mult, every answer compared with the solo answer.",
+        "level_text": "PARTIAL. (1) Regenerated facts (tools/gotr T6, all three packages): the inventory of shared roots (package-level variables and closure state of package-level function values - the base-point table), every store rooted in one of them, every call handing such memory to a parameter the callee may write through (write summaries closed over calls, local aliases resolved), each with its guard (a pointer-receiver method of another package called on shared memory counts as a write unless it is a known synchronisation primitive or read-only accessor), and every READ of a root that is written under sync.Once, classified by whether it is ordered after an unconditional Once.Do in the same body; Lean `decide` shows every such write is under package initialisation or sync.Once.Do and every such read follows the Do call - the accessor shape the interleaving theorem assumes (a lock-free fast path that returns the pointer before Do fails here). (2) A theorem by induction over ALL schedules of any number of accessor threads in an interleaving model: the initialiser runs at most once and every observation is the fully built value; with an unsynchronised nil-check instead, a 2-thread double-initialisation schedule is exhibited. (3) Supporting dynamic run: fresh processes built with -race, goroutines starting together on a mix of keygen/sign/verify/recover/parse/scalar-mult plus 64 probers arriving every 4 ms while the first caller is still decoding the base-point table, every answer compared with the solo answer.",
         "level_note": "Partial: the interleaving model is sequentially consistent - the Go memory model, runtime and sync.Once implementation are trusted; T6's may-alias approximation ignores interfaces, function values, unsafe and assumes functions of other packages do not write through their arguments; determinism of results under concurrency follows from read-only shared state only at that level of abstraction. The -race run is testing, labelled as such.",
         "technique": "Lean 4 invariant proof over all schedules of an interleaving model + `decide` on regenerated shared-state facts; -race run as supporting evidence",
         "trusted_base": ["Lean 4.33.0 kernel", "tools/gotr T6 extraction and alias approximation", "Go memory model, runtime, sync.Once", "race detector (supporting)"],
@@ -269,5 +269,5 @@ for _k, _v in PROPS.items():
     _v.setdefault("project", proj_all)
 # the properties whose Props file also asserts the sliced field programs of their own functions: when that
 # obligation breaks and the correspondence finds no input, name the function / path / item as the witness
-for _k in ("C01", "C02", "C03", "C07", "C08", "C11", "C12", "C13", "C14", "C15"):
+for _k in ("C01", "C02", "C03", "C04", "C07", "C08", "C11", "C12", "C13", "C14", "C15"):
     PROPS[_k].setdefault("static_search", c16_static_search)
